@@ -37,4 +37,8 @@ def queries():
                 ku = {14: 6, 15: 6, 16: 6, 8: cap + 4}.get(op, big)
                 qs.append(Q('%s_cap%d_%s' % (nm, cap, tier), 'C16_stream.c', 'sstream.cpp', config='small', defs={'OP': op, 'CAPK': capk, 'A': aa}, unwind=ku, hunwind=big,
                             heap_cap=max(4 * cap, 64 if aa > 12 else 32), object_bits=10, tiers=(tier,), bound={'op': nm, 'capacity': cap, 'appended<=': aa}, timeout=900 if tier == 'quick' else 3000))
+    # growth under a failing allocation (the fault quantifier proper is C19; these two queries keep the growth path of this property honest about it)
+    for op, nm in ((1, 'append'), (3, 'append_char')):
+        qs.append(Q('%s_cap8_alloc_failure' % nm, 'C16_stream.c', 'sstream.cpp', config='small', defs={'OP': op, 'CAPK': 0, 'A': 12, 'FAULT': 2}, unwind=56, hunwind=56, heap_cap=32, object_bits=10,
+                    bound={'op': nm, 'capacity': 8, 'appended<=': 12, 'failing allocation': 'the growth'}, timeout=900))
     return qs
